@@ -47,5 +47,16 @@ def main(argv=None):
     return runner.run_check(cid, tier, seed)
 
 
+def _main_guarded():
+    try:
+        return main()
+    except SystemExit:
+        raise
+    except BaseException:  # a harness fault is never reported as a property verdict (0/1/2)
+        import traceback
+        traceback.print_exc()
+        return 3
+
+
 if __name__ == "__main__":
-    sys.exit(main())
+    sys.exit(_main_guarded())
